@@ -354,7 +354,8 @@ def run(exe, sp, cfg, timeout=120, env_extra=None):
     env["VERIF_SPEC"] = path
     env.update(env_extra or {})
     try:
-        p = subprocess.run([exe] + cfg.cli, stdout=subprocess.PIPE, stderr=subprocess.PIPE, env=env, timeout=timeout)
+        prefix = ["taskset", "-c", getattr(cfg, "affinity")] if getattr(cfg, "affinity", None) else []
+        p = subprocess.run(prefix + [exe] + cfg.cli, stdout=subprocess.PIPE, stderr=subprocess.PIPE, env=env, timeout=timeout)
         res.rc = p.returncode
         res.stdout = p.stdout.decode("utf-8", "replace")
         res.stderr = p.stderr.decode("utf-8", "replace")
